@@ -478,6 +478,35 @@ def rule_normal_form(ctx):
                       expected="expand_markings -> edit -> compress_markings -> new_version(granular_markings=<compressed>)",
                       found={"compress": okc, "expand": oke, "order": order, "versioned-is-compressed": okv},
                       path=g.describe_path(p1 or p2))
+    # compression only GROUPS: every (marking, selector) pair that goes in comes out.  The accumulator of compress_markings is
+    # only ever grown (update / add / setdefault), no entry is replaced or reduced, and the output walks all of it unfiltered --
+    # dropping a selector as "implied by its ancestor" loses the pair for every query without inherited=True and for removal
+    cm = prog.func("stix2.markings.utils::compress_markings")
+    accs = {norm(a_.targets[0]) for a_ in body_walk(cm.node) if isinstance(a_, ast.Assign) and isinstance(a_.targets[0], ast.Name)
+            and isinstance(a_.value, (ast.Call, ast.Dict)) and norm(a_.value).split("(")[0].split(".")[-1] in ("defaultdict", "dict", "OrderedDict", "{}")}
+    if not accs:
+        raise AnalysisError("compress_markings: accumulator not found")
+    shrink = []
+    for n in body_walk(cm.node):
+        if isinstance(n, (ast.Assign, ast.AugAssign, ast.Delete)):
+            for t in (n.targets if not isinstance(n, ast.AugAssign) else [n.target]):
+                if isinstance(t, ast.Subscript) and norm(t.value) in accs:
+                    shrink.append(n)
+        if isinstance(n, ast.Call) and isinstance(n.func, ast.Attribute) and n.func.attr in (
+                "pop", "popitem", "discard", "remove", "clear", "difference_update", "intersection_update", "symmetric_difference_update"):
+            root = n.func.value
+            while isinstance(root, ast.Subscript):
+                root = root.value
+            if norm(root) in accs:
+                shrink.append(n)
+        if isinstance(n, (ast.ListComp, ast.GeneratorExp, ast.SetComp, ast.DictComp)) and any(
+                any(nm in accs for nm in names_in(g_.iter)) and g_.ifs for g_ in n.generators):
+            shrink.append(n)
+    run.check(not shrink, R, key(cm.module.relpath, cm.qualname, "every-pair-kept"),
+              "compress_markings replaces, reduces or filters what it accumulated: a (marking, selector) pair of the input is missing "
+              "from the normal form -- it is no longer reported for its selector, cannot be removed, and is lost when an ancestor's "
+              "marking is cleared", file=cm.module.relpath, line=shrink[0].lineno if shrink else cm.node.lineno, function=cm.qualname,
+              expected="the accumulator is only grown and written out whole", found=[short(x_) for x_ in shrink])
     # expand/compress build new lists and dicts (no in-place edit of their argument)
     for name in ("expand_markings", "compress_markings"):
         fi = prog.func("stix2.markings.utils::%s" % name)
